@@ -78,6 +78,55 @@ def representatives(arch, every_entry):
     return reps, skipped
 
 
+def composed_representatives(arch):
+    """memory-composed real x86 instructions (register form + load/store rows of the model, the
+    vocabulary and the composition reference of C08): text, micro-ops with the multiplier of the
+    register type applied, throughput of the register form"""
+    from mc.ref import compose as RC
+    plain = _PLAIN[arch]
+    if plain["isa"].lower() != "x86":
+        return []
+    ports = [str(p) for p in plain["ports"]]
+    entries = plain["instruction_forms"]
+    parser = drive.get_parser("x86")
+    out = []
+    for text_t, mpos, ld, st in c08_real.vocab():
+        for mt in ("(%rax)", "16(%rax,%rbx)"):
+            text = text_t.replace("{M}", mt)
+            ins = parser.parse_file(text + "\n")[0]
+            kinds = [RM.kind_of("x86", o) for o in ins.operands]
+            if c08_real.find_entry(entries, "x86", ins.mnemonic, kinds) is not None:
+                continue   # own memory entry (or not determined)
+            from mc.checks import isa_audit
+            if isa_audit.db_status(_MODELS[arch][1], ins)[0] != "db":
+                continue   # load/store role decided by the default rule (C03/C08 own that)
+            reg = c08_real.find_entry(entries, "x86", ins.mnemonic, kinds, wildcard_pos=mpos)
+            if not isinstance(reg, dict) or reg.get("port_pressure") is None or \
+                    isinstance(reg["port_pressure"], dict) or reg.get("throughput") is None or \
+                    c15.uops_problem(reg["port_pressure"], ports):
+                continue
+            rt = str(reg["operands"][mpos].get("name")).lower()
+            if rt not in ("gpr", "xmm", "ymm", "zmm"):
+                continue
+            uops = [(float(c), tuple(sorted(str(p) for p in list(ps))))
+                    for c, ps in reg["port_pressure"]]
+            ok = True
+            for does, pick, key in ((ld, RC.pick_load, "load_throughput_multiplier"),
+                                    (st, RC.pick_store, "store_throughput_multiplier")):
+                if not does:
+                    continue
+                rows = pick("x86", plain, c08_real.MEMS[mt], rt)
+                if rows is None:
+                    ok = False
+                    break
+                mult = (plain.get(key) or {}).get(rt, 1.0) if key in plain else 1.0
+                uops += [(float(c) * float(mult), tuple(sorted(str(p) for p in list(ps))))
+                         for c, ps in rows]
+            if ok:
+                out.append((text, tuple(uops), float(reg["throughput"])))
+    return out
+
+
 def check_kernel(item):
     arch, idxs = item
     out = {"n": 0, "bad": [], "outcome": None}
@@ -161,12 +210,14 @@ def _load(ctx, archs):
 
 def run_part(ctx):
     res = core.Result()
-    archs = ["zen1", "icx", "snb", "tx2", "a64fx"] if not ctx.thorough else drive.shipped_archs()
+    archs = ["zen1", "zen3", "icx", "snb", "tx2", "a64fx"] if not ctx.thorough else drive.shipped_archs()
     _load(ctx, archs)
     items = []
     info = {}
     for a in archs:
         reps, skipped = representatives(a, every_entry=ctx.thorough)
+        comp = composed_representatives(a)
+        reps = reps + comp
         _REPS[a] = reps
         n = len(reps)
         items += [(a, (i,)) for i in range(n)]
@@ -182,7 +233,8 @@ def run_part(ctx):
             red = sorted(red, key=lambda i: (-len(reps[i][1]),
                                              -max([len(ps) for _, ps in reps[i][1]] or [0]), i))[:PAIR_CAP]
         items += [(a, t) for t in itertools.product(red, repeat=2)]
-        info[a] = {"instructions": n, "distinct_micro_op_lists": len(first),
+        info[a] = {"instructions": n, "memory_composed_instructions": len(comp),
+                   "distinct_micro_op_lists": len(first),
                    "entries_skipped": skipped, "pair_alphabet": len(red),
                    "pair_alphabet_max_cycles": MAX_PAIR_CYCLES}
     out = core.pmap(check_kernel, core.rotate(items, ctx.seed))
@@ -214,6 +266,7 @@ def replay(ctx, payload):
     r = payload["replay"]
     _load(ctx, [r["arch"]])
     reps, _ = representatives(r["arch"], every_entry=True)
+    reps = reps + composed_representatives(r["arch"])
     _REPS[r["arch"]] = reps
     texts = [t for t, _, _ in reps]
     try:
@@ -265,7 +318,11 @@ def c02_kernel(item):
                 out["bad"].append((st, "worse_than_uniform", "bottleneck %.4f after %s > uniform "
                                    "%.4f" % (v, st, uni), multi))
             if v < opt - STEP - 1e-6:
-                out["bad"].append((st, "undercut", "bottleneck %.4f after %s undercuts the exact "
+                # residues of up to one step per balanced instruction are told apart from
+                # larger undercuts (see known finding D28)
+                small = v >= opt - STEP * len(specs) - 1e-6
+                out["bad"].append((st, "undercut-residue" if small else "undercut",
+                                   "bottleneck %.4f after %s undercuts the exact "
                                    "optimum %.4f by more than the 0.01 step" % (v, st, opt), multi))
         out["obs"] = (round(uni, 4), round(o1, 4), round(o2, 4), round(opt, 4))
     except Exception:
@@ -275,19 +332,32 @@ def c02_kernel(item):
 
 def run_part_c02(ctx):
     res = core.Result()
-    archs = ["zen1", "icx", "snb", "tx2", "a64fx"] if not ctx.thorough else drive.shipped_archs()
+    archs = ["zen1", "zen3", "icx", "snb", "tx2", "a64fx"] if not ctx.thorough else drive.shipped_archs()
     _load(ctx, archs)
     items = []
     for a in archs:
         reps, _ = representatives(a, every_entry=False)
+        ncomp0 = len(reps)
+        reps = reps + composed_representatives(a)
         _REPS[a] = reps
-        red = [i for i in range(len(reps)) if sum(c for c, _ in reps[i][1]) <= MAX_PAIR_CYCLES]
+        red = [i for i in range(ncomp0) if sum(c for c, _ in reps[i][1]) <= MAX_PAIR_CYCLES]
         if len(red) > PAIR_CAP:
             red = sorted(red, key=lambda i: (-len(reps[i][1]),
                                              -max([len(ps) for _, ps in reps[i][1]] or [0]),
                                              i))[:PAIR_CAP]
+        # memory-composed instructions: distinct micro-op lists only, paired with each other
+        cfirst = {}
+        for i in range(ncomp0, len(reps)):
+            cfirst.setdefault(reps[i][1], i)
+        cred = sorted(cfirst.values())[:12]
+        red = red + cred
         items += [(a, (i,)) for i in red]
-        items += [(a, t) for t in itertools.product(red, repeat=2)]
+        items += [(a, t) for t in itertools.product(red[:len(red) - len(cred)], repeat=2)]
+        items += [(a, t) for t in itertools.product(cred, repeat=2)]
+        # two composed instructions next to two plain ones (e.g. loads with an entry of their
+        # own): the data ports become the bottleneck
+        plain_red = red[:len(red) - len(cred)]
+        items += [(a, (c, c, r, r)) for c in cred for r in plain_red]
     out = core.pmap(c02_kernel, core.rotate(items, ctx.seed))
     worst = (0.0, None)
     for (arch, idxs), o in out:
@@ -317,6 +387,7 @@ def replay_c02(ctx, payload):
     r = payload["replay"]
     _load(ctx, [r["arch"]])
     reps, _ = representatives(r["arch"], every_entry=False)
+    reps = reps + composed_representatives(r["arch"])
     _REPS[r["arch"]] = reps
     texts = [t for t, _, _ in reps]
     idxs = tuple(texts.index(t) for t in r["kernel"])
